@@ -385,6 +385,7 @@ inductive Err where
   | forwardFail       -- the upstream did not answer
   | notResponse       -- "DNS response expected but DNS request received"
   | questionMismatch  -- "dns response does not answer the question asked" (fix: b94e062)
+  | upstreamInit      -- `GetUpstream` failed ("failed to init dns upstream": the host does not resolve)
 deriving DecidableEq, Repr, Inhabited
 
 inductive ReqSel where
@@ -411,6 +412,7 @@ structure Cfg where
   req : Prog
   resp : Prog
   maxDepth : Nat := 3  -- `MaxDnsLookupDepth` (the harness prints the constant of the code under test)
+  dead : List Nat := [] -- upstreams whose `GetUpstream` fails (host name that does not resolve)
 deriving Repr, Inhabited
 
 def reqEnv (q : Question) : Env := ⟨q.name, q.qtype, [], 0, q.rx⟩
@@ -421,6 +423,7 @@ def requestSelect (cfg : Cfg) (q : Question) : ReqSel :=
     if u == 0xFC then .reject
     else if u == 0xFD then .to .asis
     else if u ≥ cfg.nUp then .err .badUpstream
+    else if cfg.dead.contains u then .err .upstreamInit
     else .to (.up u)
   | _ => .err .routeFail
 
@@ -446,12 +449,14 @@ def daednsSelect (cfg : Cfg) (host : List Char) (qtype : Nat) (rx : List String)
   | _ => .err
 
 inductive Rec where
+  | aNil                 -- an A record without address bytes: no address for routing
   | a (addr : Nat)       -- 32-bit
   | aaaa (addr : Nat)    -- 128-bit
   | other
 deriving DecidableEq, Repr, Inhabited
 
 def Rec.ip? : Rec → Option Nat
+  | .aNil => none
   | .a x => some (mapped4 x)
   | .aaaa x => some x
   | .other => none
@@ -464,6 +469,7 @@ structure Resp where
   rcodeOk : Bool
   ns : List Rec := []    -- AUTHORITY section
   extra : List Rec := [] -- ADDITIONAL section
+  ttl0 : Bool := false   -- the first answer record has TTL 0: stored already expired, i.e. never served
 deriving Repr, Inhabited
 
 inductive RespSel where
@@ -485,6 +491,7 @@ def responseSelect (cfg : Cfg) (r : Resp) («from» : UpRef) : RespSel :=
       if u == 0xFC then .accept
       else if u == 0xFD then .reject
       else if u ≥ cfg.nUp then .err .badUpstream
+      else if cfg.dead.contains u then .err .upstreamInit
       else .next u
     | _ => .err .routeFail
 
@@ -534,6 +541,7 @@ structure CacheKey where
   name : List Char    -- canonical
   qtype : Nat
   scope : Scope
+  cls : Nat := 1      -- question class; only class IN (1) answers are ever stored (fix 4150de7)
 deriving DecidableEq, Repr, Inhabited
 
 /-- cache content relevant here: the answer records stored under a response cache key
@@ -550,14 +558,18 @@ def digitsFuel : Nat → Nat → List Char
 
 def natDigits (n : Nat) : List Char := digitsFuel (n + 1) n
 
+/-- `questionCacheKey`: a question of a class other than IN gets `#<class>` appended. -/
+def clsSuffix (c : Nat) : List Char := if c == 1 then [] else '#' :: natDigits c
+
 /-- `dnsCacheBaseKey(responseCacheKey)`: the response cache key is `name ++ qtype ++ "|" ++ scope` and
 the base key is everything before the FIRST `|` — which is `name ++ qtype` only when the name itself
 contains no `|` (code as it is; a wire name may contain the byte). -/
-def baseKeyOf (k : CacheKey) : List Char := (k.name ++ natDigits k.qtype).takeWhile (· != '|')
+def baseKeyOf (k : CacheKey) : List Char :=
+  (k.name ++ (natDigits k.qtype ++ clsSuffix k.cls)).takeWhile (· != '|')
 
 /-- `RemoveDnsRespCacheFamily(cacheKey(name, qtype))`: every entry whose base key is the given one. -/
-def Cache.removeFamily (c : Cache) (name : List Char) (qtype : Nat) : Cache :=
-  c.filter fun e => baseKeyOf e.1 != name ++ natDigits qtype
+def Cache.removeFamily (c : Cache) (name : List Char) (qtype : Nat) (cls : Nat := 1) : Cache :=
+  c.filter fun e => baseKeyOf e.1 != name ++ (natDigits qtype ++ clsSuffix cls)
 
 def Cache.store (c : Cache) (k : CacheKey) (v : List Rec) : Cache :=
   (k, v) :: c.filter fun e => !(e.1 == k)
@@ -580,7 +592,8 @@ def scopeOf (dst : Nat) : UpRef → Scope
 /-- `NormalizeAndCacheDnsResp_` stores only healthy responses, `__updateDnsCacheDeadline` nothing
 for a name that is an IP literal. -/
 def Resp.cacheable (r : Resp) : Bool :=
-  r.isResponse && r.rcodeOk && (match r.q with | some rq => !rq.isIp | none => false)
+  r.isResponse && r.rcodeOk && !(r.ttl0 && !r.recs.isEmpty) &&
+    (match r.q with | some rq => !rq.isIp && rq.qclass == 1 | none => false)
 
 /-- One client message through `HandleWithResponseWriter_`.  `q = none`: a message without
 question (name `""`, type 0 on the same path); `isResp`: the client message has the response bit. -/
@@ -591,9 +604,9 @@ def handle (cfg : Cfg) (cache : Cache) (dst : Nat) (isResp : Bool) (q? : Option 
     let q := q?.getD noQuestion
     match requestSelect cfg q with
     | .err e => ⟨[], .error e, cache⟩
-    | .reject => ⟨[], .rejected, cache.removeFamily (canonName q.name) q.qtype⟩
+    | .reject => ⟨[], .rejected, cache.removeFamily (canonName q.name) q.qtype q.qclass⟩
     | .to u =>
-      let key : CacheKey := ⟨canonName q.name, q.qtype, scopeOf dst u⟩
+      let key : CacheKey := ⟨canonName q.name, q.qtype, scopeOf dst u, q.qclass⟩
       match cache.lookup key with
       | some recs => ⟨[], .answers recs true, cache⟩
       | none =>
@@ -601,5 +614,43 @@ def handle (cfg : Cfg) (cache : Cache) (dst : Nat) (isResp : Bool) (q? : Option 
         | (t, .error e) => ⟨t, .error e, cache⟩
         | (t, .ok r) =>
           ⟨t, .answers r.recs r.rcodeOk, if r.cacheable then cache.store key r.recs else cache⟩
+
+/-! ### optimistic cache: a stale entry is served and refreshed in the background -/
+
+structure OutcomeO where
+  trace : List UpRef
+  reply : Reply
+  cache : Cache
+  stale : List CacheKey      -- keys whose entry is expired but inside the stale window
+
+/-- `handle` with `optimistic_cache` on.  A hit of a STALE entry is answered from the cache and
+`backgroundRefresh` asks, through `dialSend` at depth 0, the upstream the request rules selected
+(the trace lists those refresh queries); a healthy result replaces the entry, anything else leaves
+the stale answer in place.  A message without question is never refreshed.  Reject is decided before
+any cache is consulted, stale or not. -/
+def handleOpt (cfg : Cfg) (cache : Cache) (stale : List CacheKey) (dst : Nat) (isResp : Bool)
+    (q? : Option Question) (ans : Upstreams) : OutcomeO :=
+  if isResp then ⟨[], .error .notRequest, cache, stale⟩
+  else
+    let q := q?.getD noQuestion
+    match requestSelect cfg q with
+    | .err e => ⟨[], .error e, cache, stale⟩
+    | .reject => ⟨[], .rejected, cache.removeFamily (canonName q.name) q.qtype q.qclass, stale⟩
+    | .to u =>
+      let key : CacheKey := ⟨canonName q.name, q.qtype, scopeOf dst u, q.qclass⟩
+      match cache.lookup key with
+      | some recs =>
+        if stale.contains key && q?.isSome then
+          match dialSend cfg q? ans 0 u with
+          | (t, .ok r) =>
+            if r.cacheable then ⟨t, .answers recs true, cache.store key r.recs, stale.erase key⟩
+            else ⟨t, .answers recs true, cache, stale⟩
+          | (t, .error _) => ⟨t, .answers recs true, cache, stale⟩
+        else ⟨[], .answers recs true, cache, stale⟩
+      | none =>
+        match dialSend cfg q? ans 0 u with
+        | (t, .error e) => ⟨t, .error e, cache, stale⟩
+        | (t, .ok r) =>
+          ⟨t, .answers r.recs r.rcodeOk, if r.cacheable then cache.store key r.recs else cache, stale⟩
 
 end DaeVerif.C07
